@@ -138,6 +138,7 @@ def run_shard(spec, rec):
         prof = gen_profile(rng, kind, st)
         prof["stratum"] = st
         prof["use_style"] = rng.random() < 0.5
+        prof["omit_share_arg"] = rng.random() < 0.5
         run_case(prof, rec)
 
 
@@ -161,9 +162,9 @@ def build(prof):
     before = (list(winners_arg), list(losers))
     for _ in range(2):
         if kind == "supermajority":
+            kw = {} if prof.get("omit_share_arg") else {"share_to_win": prof["share"]}   # the contest carries the share
             asns = Assertion.make_supermajority_assertion(contest=con, winner=prof["winners"][0], loser=losers,
-                                                          share_to_win=prof["share"], test=NonnegMean.alpha_mart,
-                                                          estim=NonnegMean.shrink_trunc)
+                                                          test=NonnegMean.alpha_mart, estim=NonnegMean.shrink_trunc, **kw)
         else:
             asns = Assertion.make_plurality_assertions(contest=con, winner=winners_arg, loser=losers,
                                                        test=NonnegMean.alpha_mart, estim=NonnegMean.shrink_trunc)
